@@ -109,6 +109,35 @@ Theorem breakdown_price_rounded_before_multiplying_refuted : far_from_exact w_br
 Proof. exact w_breakdown_far. Qed.
 Print Assumptions breakdown_price_rounded_before_multiplying_refuted.
 
+(* a converted price whose source has no more decimals than the document's currency is the exact
+   product price x rate rounded ONCE to the currency's decimals (repair of ExchangeRate.Convert
+   recorded in findings/C01.json: before it the product was first rounded to the decimals of the
+   source amount - JPY 1550 x 0.0062 gave 10.00 EUR, not 9.61).  With more decimals than the
+   currency the price is still rounded twice (second theorem; part of the known finding
+   C01-converted-price-rounded-to-currency-decimals). *)
+Theorem converted_price_rounded_once it cur c rates ic isub r :
+  it_cur it = Some (ic, isub) -> (ic =? cur)%Z = false -> find_alt cur (it_alts it) = None ->
+  find_rate ic cur rates = Some r -> (exp (it_price it) <= c)%nat -> (isub <= c)%nat ->
+  exists p, item_price it cur c rates = Some p /\ exp p = c /\ toQ p == rnd c (toQ (it_price it) * toQ r).
+Proof. exact (IdealProofs.converted_price_rounded_once it cur c rates ic isub r). Qed.
+Print Assumptions converted_price_rounded_once.
+
+Theorem converted_price_rounded_once_beyond_currency_decimals_refuted :
+  exists it cur c rates ic isub r p,
+    it_cur it = Some (ic, isub) /\ (ic =? cur)%Z = false /\ find_alt cur (it_alts it) = None /\
+    find_rate ic cur rates = Some r /\ (isub <= c)%nat /\
+    item_price it cur c rates = Some p /\ ~ toQ p == rnd c (toQ (it_price it) * toQ r).
+Proof. exact IdealProofs.converted_price_rounded_once_beyond_currency_decimals_refuted. Qed.
+Print Assumptions converted_price_rounded_once_beyond_currency_decimals_refuted.
+
+(* non-vacuity, the witness of the repair: JPY 1550 (no decimals) at 0.0062 into EUR: 9.61 *)
+Example converted_price_rounded_once_applies :
+  let it := mkItem (mkA 1550 0) (Some (2%Z, 0%nat)) [] in
+  it_cur it = Some (2%Z, 0%nat) /\ (2 =? 1)%Z = false /\ find_alt 1 (it_alts it) = None /\
+  find_rate 2 1 [mkXrate 2 1 (mkA 62 4)] = Some (mkA 62 4) /\ (exp (it_price it) <= 2)%nat /\ (0 <= 2)%nat /\
+  item_price it 1 2 [mkXrate 2 1 (mkA 62 4)] = Some (mkA 961 2).
+Proof. cbv zeta. do 4 (split; [reflexivity|]). split; [cbn; repeat constructor|]. split; [repeat constructor|]. vm_compute. reflexivity. Qed.
+
 (* under 'currency' a line sum is not the product rounded ONCE to the currency's decimals when the
    price has more decimals than the currency: 0.05 x 0.0999 gives 0.01, rounded once 0.00 *)
 Theorem currency_line_sum_single_rounding_refuted :
@@ -154,7 +183,10 @@ Print Assumptions presentation_rounding_error.
      discounts / charges are fixed amounts, rate x quantity charges, or percentages (with or
      without base) of at most 100% either way; document discounts / charges fixed or such
      percentages; every tax
-     percentage and surcharge lies between 0% and 100%.  Quantities, prices, amounts and bases are
+     percentage and surcharge lies between 0% and 100%; a supplied totals.rounding is written with
+     no more decimals than the currency (rounding_ok: with more it is presented at the currency's
+     decimals - one of the documented rounding points - and that figure is what payable adds, so
+     payable can be a full unit from the unrounded sum: supplied_rounding_with_extra_decimals_refuted).  Quantities, prices, amounts and bases are
      arbitrary (any sign, any decimals); taxes may be included in prices, retained, carry
      surcharges; any currency precision c.
    The error is counted in eps c = half a unit of the (c+2)-th decimal = 1/200 minor unit:
@@ -207,6 +239,17 @@ Theorem precise_error_bound d t : simple_doc d -> b_due d < 100 -> calculate d =
     obound (fun e => e < u) (t_due t) (i_due y).
 Proof. exact (IdealBoundProofs.precise_error_bound d t). Qed.
 Print Assumptions precise_error_bound.
+
+(* why the class asks for a totals.rounding of no more decimals than the currency: 1 x 10.005 with
+   rounding 0.005 presents rounding 0.01 and payable 10.02, unrounded 10.01 *)
+Theorem supplied_rounding_with_extra_decimals_refuted :
+  exists d t y, simple_docb (mkDoc (d_c d) (d_currency_rule d) (d_pit d) (d_cur d) (d_lines d) (d_discounts d)
+                                     (d_charges d) (d_rates d) (d_advances d) (d_dues d) None) = true /\
+    (budget d < 100)%Z /\ calculate d = Totals t /\ exact d = Some y /\
+    t_rounding t = Some (mkA 1 2) /\
+    unitQ (d_c d) <= Qabs (toQ (t_payable t) - i_payable y).
+Proof. exact IdealBoundProofs.precise_error_bound_supplied_rounding_refuted. Qed.
+Print Assumptions supplied_rounding_with_extra_decimals_refuted.
 
 (* the class is decidable: simple_docb (Calc/IdealClass.v) is the boolean the check evaluates, by
    extraction, on every generated document, together with budget d = ceiling (b_due d); inside
